@@ -271,8 +271,15 @@ Fixpoint ascending (l : list F64) : bool :=
 
 Definition P52 : Z := 4503599627370496.
 
+(** the unit of a descriptor is an atomic SI unit of the tables (or absent) *)
+Definition unit_dom (d : dimd) : bool :=
+  match d with
+  | DSampled _ _ (Some u) | DRange _ (Some u) => match split_atomic u with Some _ => true | None => false end
+  | _ => true
+  end.
+
 Definition dim_dom (d : dimd) (shape_d : Z) : bool :=
-  (1 <=? shape_d) && (shape_d <=? alen d) && (shape_d <=? P52) &&
+  (1 <=? shape_d) && (shape_d <=? alen d) && (shape_d <=? P52) && unit_dom d &&
   match d with
   | DSampled dt off _ => fis_finite dt && flt fzero dt && fis_finite (offset_or_zero off) &&
                          fle dt (ofME 1 900) && fle (fabs (offset_or_zero off)) (ofME 1 1000) &&
@@ -306,13 +313,15 @@ Fixpoint wants_dom (ds : list dimd) (ws : list want) : bool :=
 
 (** the oracle: the specification's answer for a request, [Unconstrained] outside the domain *)
 Definition spec_answer (incl : bool) (a : darray) (ws : list want) : answer (list Z * list Z) :=
-  if dims_dom (a_dims a) (a_shape a) && wants_dom (a_dims a) ws then spec_region incl a ws else Unconstrained.
+  if (1 <=? zlen (a_dims a)) && dims_dom (a_dims a) (a_shape a) && wants_dom (a_dims a) ws
+  then spec_region incl a ws else Unconstrained.
 
 (** feature data: tagged -> the region on the feature array, untagged -> everything,
     indexed -> for a Tag everything, for a MultiTag slice i along the first dimension *)
 (** MultiTag, position index i: an index beyond the number of positions must be refused *)
 Definition spec_answer_mtag (incl : bool) (mt : mtag) (a : darray) (i : Z) : answer (list Z * list Z) :=
-  if negb (mtag_shape_ok mt (zlen (a_dims a))) then Unconstrained
+  if negb (mtag_shape_ok mt (zlen (a_dims a)) && (1 <=? zlen (a_dims a)) && dims_dom (a_dims a) (a_shape a))
+  then Unconstrained
   else if (i <? 0) || (mtag_npos mt <=? i) then Refuse
   else spec_answer incl a (mtag_wants mt a i).
 
